@@ -665,3 +665,102 @@ func stickyFlagsTestedInLoop(fn *ssa.Function) []stickyFlag {
 	}
 	return out
 }
+
+// dataDependsOn: v is computed (by any chain of operands inside its function, through local cells) from src.
+func dataDependsOn(v, src ssa.Value) bool {
+	seen := map[ssa.Value]bool{}
+	var visit func(v ssa.Value, d int) bool
+	visit = func(v ssa.Value, d int) bool {
+		if v == src {
+			return true
+		}
+		if v == nil || d > 40 || seen[v] {
+			return false
+		}
+		seen[v] = true
+		if al, ok := v.(*ssa.Alloc); ok {
+			for _, ref := range *al.Referrers() {
+				if st, ok := ref.(*ssa.Store); ok && st.Addr == ssa.Value(al) && visit(st.Val, d+1) {
+					return true
+				}
+			}
+			return false
+		}
+		in, ok := v.(ssa.Instruction)
+		if !ok {
+			return false
+		}
+		for _, op := range in.Operands(nil) {
+			if *op != nil && visit(*op, d+1) {
+				return true
+			}
+		}
+		return false
+	}
+	return visit(v, 0)
+}
+
+// ELEMENT-STATE-NOT-CARRIED: in a `for _, x := range slice` loop, what is carried to the next iteration (the header
+// phis other than the index) is not computed from the current element x — a cursor / scratch variable that belongs
+// to one element and was hoisted out of the loop makes element k's result depend on elements 0..k-1, i.e. on the
+// declaration order.
+type elemCarried struct {
+	loop loopInfo
+	phi  *ssa.Phi
+	edge ssa.Value
+	elem ssa.Value
+}
+
+func sliceRangeElemCarried(fn *ssa.Function, overSlice func(ssa.Value) bool) (nloops int, out []elemCarried) {
+	for _, li := range naturalLoops(fn) {
+		var idx *ssa.Phi
+		for _, in := range li.header.Instrs {
+			if p, ok := in.(*ssa.Phi); ok && p.Comment == "rangeindex" {
+				idx = p
+			}
+		}
+		if idx == nil {
+			continue
+		}
+		var incr ssa.Value
+		for _, ref := range *idx.Referrers() {
+			if b, ok := ref.(*ssa.BinOp); ok && b.Op == token.ADD && b.X == ssa.Value(idx) {
+				incr = b
+			}
+		}
+		if incr == nil {
+			continue
+		}
+		var elems []ssa.Value
+		for _, ref := range *incr.Referrers() {
+			if ia, ok := ref.(*ssa.IndexAddr); ok && ia.Index == incr && overSlice(ia.X) {
+				for _, r2 := range *ia.Referrers() {
+					if ld, ok := r2.(*ssa.UnOp); ok && ld.Op == token.MUL {
+						elems = append(elems, ld)
+					}
+				}
+			}
+		}
+		if len(elems) == 0 {
+			continue
+		}
+		nloops++
+		for _, in := range li.header.Instrs {
+			p, ok := in.(*ssa.Phi)
+			if !ok || p == idx {
+				continue
+			}
+			for i, e := range p.Edges {
+				if !li.body[li.header.Preds[i]] || e == ssa.Value(p) {
+					continue
+				}
+				for _, el := range elems {
+					if dataDependsOn(e, el) {
+						out = append(out, elemCarried{li, p, e, el})
+					}
+				}
+			}
+		}
+	}
+	return
+}
